@@ -812,7 +812,38 @@ class C15(Prop):
             cases.append(comp(text, o, group=grp, role="rand"))
         return cases
 
+    def corpus(self, tier):
+        """ProjectEnvironment.calculate_options against the Coq model (Options.v), every shape of config.yaml"""
+        out = []
+        vals = {"stack_limit": [7, 200], "include_comments": [True, False], "flipper_commands": [True, False], "supress_command_not_exist": [True, False], "use_project_config": [True, False]}
+        keys = list(vals)
+        r = random.Random(15)
+        projs = [None, {}]
+        for n in range(1, 6):
+            for ks in itertools.combinations(keys, n):
+                for _ in range(2 if tier != "thorough" else 6):
+                    projs.append({k: r.choice(vals[k]) for k in ks})
+        for proj in projs:
+            for g_use in (True, False):
+                g = {"stack_limit": r.choice([20, 33]), "include_comments": r.random() < 0.5, "flipper_commands": r.random() < 0.5,
+                     "supress_command_not_exist": r.random() < 0.5, "use_project_config": g_use}
+                out.append({"kind": "opts", "global": g, "project": proj})
+        return out
+
     def oracle(self, c, i):
+        if c.get("kind") == "opts" and i.get("status") == "OK":
+            g = dict(common.DEFAULT_OPTS, **c["global"])
+            y = c["project"]
+            full = dict(common.DEFAULT_OPTS, **(y or {}))
+            use = g["use_project_config"] and y is not None and full["use_project_config"]
+            want = full if use else g
+            want_l = [want[k] for k in ("stack_limit", "include_comments", "flipper_commands", "supress_command_not_exist", "use_project_config")]
+            if i["effective"] != want_l:
+                return ("project_merge_wrong", "effective options %s, expected %s (project %r, global use_project_config=%s)" % (i["effective"], want_l, y, g["use_project_config"]))
+            if y is not None:
+                full_l = [full[k] for k in ("stack_limit", "include_comments", "flipper_commands", "supress_command_not_exist", "use_project_config")]
+                if i.get("after_options") != full_l:
+                    return ("project_config_meaning_changed", "config.yaml denotes %s afterwards, before %s" % (i.get("after_options"), full_l))
         return None
 
     def group_oracle(self, cases, impls):
